@@ -46,7 +46,7 @@ def case(left, steps, fin=None, data="std", shape="independent"):
 A2 = ["where", A, b("Gt", nref("v"), ["lit", 10])]          # common ancestor: a filtered copy of A
 A3 = ["proj", A, ["k", "s"]]                                  # common ancestor: a projection of A
 al_a, al_b = ["alias", A, "a"], ["alias", A, "b"]            # the same DataFrame under two aliases
-al_x, al_y = ["alias", A, "x"], ["alias", B, "y"]            # two DataFrames under aliases
+al_x, al_y = ["alias", A, "p"], ["alias", B, "q"]            # two DataFrames under aliases (names that are no column's name)
 
 
 def on_forms(l, r, lref, rref):
@@ -71,7 +71,7 @@ def single_joins(tier):
         ("common-ancestor", A, A2, lambda n: dref(A, n), lambda n: dref(A2, n), ["std"]),
         ("common-ancestor", A, A3, lambda n: dref(A, n), lambda n: dref(A3, n), ["nulls"]),
         ("aliased", al_a, al_b, lambda n: aref("a", n), lambda n: aref("b", n), ["std"]),
-        ("aliased", al_x, al_y, lambda n: aref("x", n), lambda n: aref("y", n), ["std", "nulls"]),
+        ("aliased", al_x, al_y, lambda n: aref("p", n), lambda n: aref("q", n), ["std", "nulls"]),
     ]
     for pi, (shape, l, r, lref, rref, datas) in enumerate(pairs):
         for how in DOCUMENTED + CASE_VARIANTS:
@@ -112,19 +112,22 @@ def single_joins(tier):
     return out
 
 
+def ref_to(d, nme):
+    """a reference to column nme of the chain table d: through its alias if it has one, else through the DataFrame"""
+    x = d
+    while x[0] != "base":
+        if x[0] == "alias":
+            return aref(x[2], nme)
+        x = x[1]
+    return dref(d, nme)
+
+
 def fins_for(tabs):
-    """select / where on either side's columns after a join chain.  tabs: the DF descriptions in the chain."""
+    """select / where on either side's columns after a join chain.  tabs: (first, ..., last) visible tables to refer to."""
     first, last = tabs[0], tabs[-1]
     fl = [c for c in cc.df_cols(first) if c != "k"][0]
     ll = [c for c in cc.df_cols(last) if c not in ("k", "k2")][0]
-
-    def r(d, n):
-        x = d
-        while x[0] != "base":
-            if x[0] == "alias":
-                return aref(x[2], n)
-            x = x[1]
-        return dref(d, n)
+    r = ref_to
     fins = [
         ["select", [[nref("k"), "k"], [r(first, fl), "l_" + fl], [r(last, ll), "r_" + ll]]],
         ["select", [[r(last, ll), ll], [r(first, fl), fl]]],
@@ -140,7 +143,7 @@ def joins_then(tier):
     out = []
     for how in ONE_PER_KIND:
         for shape, l, r, on_e in (("independent", A, B, exprs([b("Eq", dref(A, "k"), dref(B, "k"))])),
-                                  ("aliased", al_x, al_y, exprs([b("Eq", aref("x", "k"), aref("y", "k"))])),
+                                  ("aliased", al_x, al_y, exprs([b("Eq", aref("p", "k"), aref("q", "k"))])),
                                   ("common-ancestor", A, A2, None)):
             for on in (names(["k"], True), on_e):
                 if on is None:
@@ -153,46 +156,49 @@ def joins_then(tier):
 
 
 def chains(rnd, n, maxlen=3):
-    """left-deep chains of 2..3 joins over the pool, optionally followed by select/where"""
+    """left-deep chains of 2..3 joins over the pool, optionally followed by select/where on visible tables' columns.
+    References through a DataFrame are only made to tables whose base DataFrame occurs once in the chain (PySpark rejects
+    or special-cases the others), and never to the right side of a semi/anti join."""
     out = []
     pool = [B, C, D, A2, al_y]
     hows = DOCUMENTED
     for _ in range(n):
         left = rnd.choice([A, A, A, al_x])
         tabs = [left]
+        visible = [left]
         steps = []
         cols_now = list(cc.df_cols(left))           # names visible by name (rough; only used to pick plausible keys)
         for _s in range(rnd.randint(2, maxlen)):
             r = rnd.choice([t for t in pool if cc.key(t) not in {cc.key(x) for x in tabs}])
             rc = cc.df_cols(r)
             how = rnd.choice(hows if rnd.random() < 0.6 else ["inner", "left", "left_outer", "inner", "semi", "full", "right"])
+            bases = [cc.df_base(t) for t in tabs + [r]]
+
+            def refable(t):
+                return t[0] == "alias" or bases.count(cc.df_base(t)) == 1
             forms = []
             if "k" in rc and "k" in cols_now:
                 forms += [names(["k"], rnd.random() < 0.5)] * 3
-            lt = rnd.choice(tabs)
-
-            def rf(d, nme):
-                x = d
-                while x[0] != "base":
-                    if x[0] == "alias":
-                        return aref(x[2], nme)
-                    x = x[1]
-                return dref(d, nme)
-            lk = "k2" if "k2" in cc.df_cols(lt) else "k"
-            rk = "k2" if "k2" in rc else "k"
-            forms += [exprs([b(rnd.choice(["Eq", "Eq", "Eq", "NullSafeEq"]), rf(lt, lk), rf(r, rk))])] * 2
-            if rnd.random() < 0.15:
+            cands = [t for t in visible if refable(t)]
+            if cands and refable(r):
+                lt = rnd.choice(cands)
+                lk = "k2" if "k2" in cc.df_cols(lt) else "k"
+                rk = "k2" if "k2" in rc else "k"
+                forms += [exprs([b(rnd.choice(["Eq", "Eq", "Eq", "NullSafeEq"]), ref_to(lt, lk), ref_to(r, rk))])] * 2
+            if rnd.random() < 0.15 or not forms:
                 forms += [None]
             on = rnd.choice(forms)
             steps.append(step(r, on, how))
             tabs.append(r)
             if cc.kind_of(how) not in ("semi", "anti"):
+                visible.append(r)
                 cols_now += [c for c in rc if not (on and on[0] == "names" and c in on[1])]
         fin = None
-        if rnd.random() < 0.5:
-            fin = rnd.choice(fins_for(tabs))
+        bases = [cc.df_base(t) for t in tabs]
+        vis_ref = [t for t in visible if t[0] == "alias" or bases.count(cc.df_base(t)) == 1]
+        if rnd.random() < 0.5 and vis_ref:
+            fin = rnd.choice(fins_for([vis_ref[0], vis_ref[-1]]))
         out.append(case(left, steps, fin, rnd.choice(["std", "std", "nulls"]), "chain"))
-    # fixed chains that exercised every defect class seen while building the check (corpus; run first in the check)
     return out
 
 
@@ -213,11 +219,18 @@ def corpus():
         case(A, [step(B, kk, "full")], ["select", [[nref("k"), "k"], [nref("s"), "s"], [nref("w"), "w"]]], "std"),
         case(A, [step(B, kk, "full")], ["where", b("Eq", nref("k"), ["lit", 3])], "std"),
         case(A, [step(B, kk, "left")], ["where", b("Gt", dref(B, "v"), ["lit", 100])], "std"),
+        # a name join when the left side already has two columns named like the key
+        case(A, [step(C, exprs([b("Eq", dref(A, "k"), dref(C, "k"))]), "inner"), step(B, kk, "inner")], None, "std", "chain"),
+        case(A, [step(C, exprs([b("Eq", dref(A, "k"), dref(C, "k"))]), "left"), step(B, kk, "left")], None, "nulls", "chain"),
+        # a join after a semi/anti join whose hidden right side shares a column name with the new table
+        case(A, [step(B, kk, "anti"), step(al_y, kk, "left")], None, "std", "chain"),
+        case(A, [step(B, exprs([b("Eq", dref(A, "k"), dref(B, "k"))]), "semi"), step(C, kk, "left")], None, "std", "chain"),
+        case(A, [step(C, kk, "semi"), step(B, exprs([b("Eq", dref(A, "k"), dref(B, "k"))]), "inner")], None, "std", "chain"),
     ]
 
 
-def gen_cases(rnd, tier):
-    cs = corpus() + single_joins(tier) + joins_then(tier) + chains(rnd, 120 if tier == "quick" else 2500)
+def gen_cases(rnd, tier, n_chains=None):
+    cs = corpus() + single_joins(tier) + joins_then(tier) + chains(rnd, n_chains or (120 if tier == "quick" else 2500))
     seen, out = set(), []
     for c in cs:
         k = cc.key({x: c[x] for x in ("left", "steps", "fin", "data")})
